@@ -4,7 +4,7 @@
    [inside s e x] = s <= x <= e.  Not modelled: how NumPy produces the draws (only their range / being a
    permutation is used, as hypotheses).  FALSE of the faithful model, hence stated as _refuted: member counts of
    a TsGroup whose support is RECOMPUTED (jitter keep_tsupport=False, shuffle) when a member has a single
-   distinct timestamp, or when the group is a pair of members whose recomputed supports touch. *)
+   distinct timestamp (all members so: the call raises), or when the group is a pair of members whose recomputed supports touch. *)
 From Verif Require Import Base.Prelude Model.Restrict Model.Iset Model.Randomize Proofs.RandomizeProofs.
 From Coq Require Import Permutation.
 
@@ -188,11 +188,20 @@ Proof. exact group_recomputed_support_refuted_touching. Qed.
 Print Assumptions C20_group_recomputed_support_touching_refuted.
 
 Theorem C20_group_recomputed_support_raises_refuted :
-  shuffle_group [(0, [10; 20]); (1, [])] [[0%nat]; []] = None
-  /\ shuffle_group [(0, [10]); (1, [20; 20])] [[]; [0%nat]] = None
+  shuffle_group [(0, [10]); (1, [20; 20])] [[]; [0%nat]] = None
   /\ jitter_group false 0 100 [(0, [10]); (1, [20; 21])] [[0]; [1; 0]] = None.
 Proof. exact group_recomputed_support_raises. Qed.
 Print Assumptions C20_group_recomputed_support_raises_refuted.
+
+(* 8. an empty series / empty member is returned unchanged by shuffle (repaired by 9bcff6e; it raised IndexError) *)
+Theorem C20_shuffle_empty : forall perm, shuffle_ts [] perm = Some ([], []).
+Proof. exact shuffle_ts_empty. Qed.
+Print Assumptions C20_shuffle_empty.
+
+Theorem C20_group_shuffle_empty_member :
+  shuffle_group [(0, [10; 20; 50]); (1, [])] [[1%nat; 0%nat]; []] = Some ([(0, [10; 40; 50]); (1, [])], [(10, 50)]).
+Proof. exact shuffle_group_empty_member_ok. Qed.
+Print Assumptions C20_group_shuffle_empty_member.
 
 (* a support starting at 100 s, three stamps (one on each support end), every generator changes the series:
    shift by 3U wraps e onto s + 3U and s + U onto s *)
